@@ -95,6 +95,21 @@ CLAIMED = {
              "C08-roundshape-bbox. Sampling oracle resolution 161 samples + refinement, tolerance 2e-7 of the object size.",
         technique="Lean 4 proof (ordered-field case analysis, nlinarith, list induction) for lines/quadratics/unions/stroke + differential correspondence + sampling oracle for cubics and arcs",
         ref="DESIGN.md §4 C08"),
+    "C06": dict(
+        text="Lean 4 theorems: the rect corner-radius decision table equals the SVG 2 10.2 used values for every given/omitted/zero/"
+             "over-large combination; the rect, circle/ellipse and polyline/polygon decompositions (any number of points, by induction) "
+             "are connected, closed shapes end with a close returning to their first point, each rounded corner built by the keyword Arc "
+             "constructor has the inner-corner centre and is the positive quarter of the axis-aligned ellipse with radii (rx, ry), the "
+             "round shapes run through (cx+rx,cy),(cx,cy+ry),(cx-rx,cy),(cx,cy-ry) in that order, and degenerate shapes give no "
+             "segments; transforms commute with all of them by C02. The model (Model/Shapes.lean) is compared segment-for-segment with "
+             "shape.segments(False); the SVG 2 chapter 10 equivalent path, written as path data from the specification, is compared with "
+             "segments(True), Path(shape), abs(shape), Path(shape.d()), ==, bbox and length on the implementation under every "
+             "transform class and all three constructor forms.",
+        note="Trusted: Path(d) parsing (C01), number printing (C07), chord-length recursion (C15) for the length agreement; IEEE "
+             "rounding. Known findings C06-roundshape-segments (circle/ellipse .segments()/d() under non-orthogonal images) and "
+             "C06-arc-d-6digits (6-digit arc radii in d()).",
+        technique="Lean 4 proof (decision table, structural/list induction, field algebra) + differential correspondence + specification-path oracle",
+        ref="DESIGN.md §4 C06"),
 }
 ALL = ["C%02d" % i for i in range(1, 21)]
 
